@@ -474,13 +474,14 @@ def make_driver(plan, world):
         def fill():
             for a, i, t in entries:
                 m.add_type(short_address=a, instance_number=i, instance_type=t)
-            d._verif_map_filled_us = world.now_us()
+            d._verif_map_filled_us = world.loop.time() * 1e6
             world.probe("instance-map-filled")
         d._verif_inst_map = m
         d._verif_map_filled_us = None
         world._late_map = None
         if k.get("inst_map_fill_at_us") is not None:
-            world.loop.at(world.loop.time() + k["inst_map_fill_at_us"] / 1e6, fill)
+            # (never at a report instant: reports are on integer microseconds)
+            world.loop.at(world.loop.time() + (k["inst_map_fill_at_us"] + 0.43) / 1e6, fill)
         else:
             fill()
     return d
